@@ -64,6 +64,12 @@ type Spec struct {
 	// ExtraObservers are issued after the generic per-key sweep.
 	ExtraObservers func(ks *model.KS) []Op
 	NoObservers    bool
+	// Lax selects the one-second-granularity expiry oracle of C06.
+	Lax bool
+	// Variants: names of scheduling variants; variant 1 withholds background timer goroutines.
+	Variants []string
+	// ProbeOps are applied (each on a fresh replay, no successors) to the states of the last level.
+	ProbeOps []Op
 }
 
 // ------------------------------------------------------------------ instance
@@ -80,6 +86,7 @@ func newInst(spec *Spec) *inst {
 	w := rt.NewWorld()
 	x := &inst{w: w, mgr: h.NewManager(), spec: spec, ctx: context.Background()}
 	x.ks = model.NewKS(rt.Epoch * 1000)
+	x.ks.Lax = spec.Lax
 	return x
 }
 
@@ -282,17 +289,17 @@ func isStreamID(s string) string {
 }
 
 type replayDoc struct {
-	Engine   string   `json:"engine"`
-	Prop     string   `json:"prop"`
-	ShardNum int      `json:"shard_num"`
-	Seed     string   `json:"seed"`
-	Program  []string `json:"program"` // human readable
-	ProgB64  [][][]byte `json:"program_bytes"`
-	AdvMs    []int64  `json:"advance_ms"`
-	TimersOff bool    `json:"timers_off"`
-	Observer string   `json:"observer,omitempty"`
-	Expected string   `json:"expected"`
-	Observed string   `json:"observed"`
+	Engine    string     `json:"engine"`
+	Prop      string     `json:"prop"`
+	ShardNum  int        `json:"shard_num"`
+	Seed      string     `json:"seed"`
+	Program   []string   `json:"program"` // human readable
+	ProgB64   [][][]byte `json:"program_bytes"`
+	AdvMs     []int64    `json:"advance_ms"`
+	TimersOff bool       `json:"timers_off"`
+	Observer  string     `json:"observer,omitempty"`
+	Expected  string     `json:"expected"`
+	Observed  string     `json:"observed"`
 }
 
 func (x *inst) mkReplay(prog []Op, seed string, expected, observed, observer string) replayDoc {
@@ -309,7 +316,13 @@ func (x *inst) mkReplay(prog []Op, seed string, expected, observed, observer str
 // applyModel picks the model outcome consistent with the observed reply and dump.
 // Returns (next state, reply mismatch text, state mismatch text).
 func applyModel(ks *model.KS, args [][]byte, v model.Val, implC []model.CanonKey, tol int64) (*model.KS, string, string) {
-	outs := ks.Apply(args)
+	outs := ks.ApplyLax(args)
+	diff := func(next *model.KS) string {
+		if ks.Lax {
+			return model.DiffCanonLax(next.Canon(), implC, ks.NowMs, tol)
+		}
+		return model.DiffCanon(next.Canon(), implC, tol)
+	}
 	var firstReplyWhy string
 	var replyOK []*model.KS
 	for _, o := range outs {
@@ -321,7 +334,7 @@ func applyModel(ks *model.KS, args [][]byte, v model.Val, implC []model.CanonKey
 			continue
 		}
 		replyOK = append(replyOK, next)
-		if model.DiffCanon(next.Canon(), implC, tol) == "" {
+		if diff(next) == "" {
 			return next, "", ""
 		}
 	}
@@ -330,16 +343,16 @@ func applyModel(ks *model.KS, args [][]byte, v model.Val, implC []model.CanonKey
 		if o.Resolve != nil || o.Next == nil {
 			continue
 		}
-		if model.DiffCanon(o.Next.Canon(), implC, tol) == "" {
+		if diff(o.Next) == "" {
 			return o.Next, firstReplyWhy, ""
 		}
 	}
 	if len(replyOK) > 0 {
-		return nil, "", model.DiffCanon(replyOK[0].Canon(), implC, tol)
+		return nil, "", diff(replyOK[0])
 	}
 	st := ""
 	if outs[0].Next != nil {
-		st = model.DiffCanon(outs[0].Next.Canon(), implC, tol)
+		st = diff(outs[0].Next)
 	}
 	if st == "" {
 		st = "(no admissible outcome matches the resulting state)"
@@ -377,6 +390,7 @@ func (x *inst) step(op Op, prog []Op, seedName string, record bool) stepOut {
 		_ = d
 		return out
 	}
+	op = x.subst(op)
 	cmd := strings.ToLower(string(op.A[0]))
 	shape := shapeOf(op.A, pre, x.spec.Keys)
 	r := x.exec(op.A, 5000)
@@ -460,6 +474,24 @@ func (x *inst) step(op Op, prog []Op, seedName string, record bool) stepOut {
 	return out
 }
 
+// subst replaces "@now+N" arguments by the absolute unix time (seconds) N seconds from now.
+func (x *inst) subst(op Op) Op {
+	var out [][]byte
+	for i, a := range op.A {
+		if strings.HasPrefix(string(a), "@now+") {
+			if out == nil {
+				out = append([][]byte{}, op.A...)
+			}
+			n, _ := strconv.ParseInt(string(a[5:]), 10, 64)
+			out[i] = []byte(strconv.FormatInt(x.ks.NowMs/1000+n, 10))
+		}
+	}
+	if out == nil {
+		return op
+	}
+	return Op{A: out, AdvMs: op.AdvMs, Guard: op.Guard}
+}
+
 // observe runs the observer sweep on the live instance (reads through the public interface).
 func (x *inst) observe(prog []Op, seedName string) (viol []*ev.Violation, mutated bool) {
 	before, _ := x.implCanon()
@@ -515,7 +547,7 @@ func (x *inst) observe(prog []Op, seedName string) (viol []*ev.Violation, mutate
 			viol = append(viol, mk("malformed-reply", "", fmt.Sprintf("after %s: observer %s: reply %q malformed: %v", progString(prog), o, r.reply, derr), "well-formed reply", fmt.Sprintf("%q", r.reply)))
 			continue
 		}
-		outs := x.ks.Apply(o.A)
+		outs := x.ks.ApplyLax(o.A)
 		why := ""
 		ok := false
 		for _, oc := range outs {
@@ -540,7 +572,11 @@ func (x *inst) observe(prog []Op, seedName string) (viol []*ev.Violation, mutate
 	if model.CanonString(before) != model.CanonString(after) {
 		mutated = true
 		// a read that changes the logical keyspace: compare against the model (which reads do not change)
-		if d := model.DiffCanon(x.ks.Canon(), after, x.spec.TTLTolMs); d != "" {
+		d := model.DiffCanon(x.ks.Canon(), after, x.spec.TTLTolMs)
+		if x.spec.Lax {
+			d = model.DiffCanonLax(x.ks.Canon(), after, x.ks.NowMs, x.spec.TTLTolMs)
+		}
+		if d != "" {
 			viol = append(viol, &ev.Violation{Engine: "seqmc", Kind: "state-mismatch", Cmd: "obs:sweep", Shape: "", Detail: fmt.Sprintf("after %s: read-only observer sweep changed the keyspace: %s", progString(prog), d),
 				Replay: x.mkReplay(prog, seedName, "reads do not change the keyspace", model.CanonString(after), "sweep")})
 		}
@@ -559,12 +595,13 @@ func progString(p []Op) string {
 // ------------------------------------------------------------------ worker
 
 type task struct {
-	Prop   string
-	Tier   string
-	Seed   int
-	Progs  [][]int // states to expand (op index paths)
-	OnlyOp int     // -1: all ops
-	Root   bool    // compute only the root hash/observation of each prog (no expansion)
+	Prop    string
+	Tier    string
+	Seed    int
+	Progs   [][]int // states to expand (op index paths)
+	OnlyOp  int     // -1: all ops
+	Root    bool    // compute only the root hash/observation of each prog (no expansion)
+	Variant int     // scheduling variant (1 = background timers withheld)
 }
 
 type succ struct {
@@ -608,7 +645,10 @@ func worker(tb []byte, progress func()) []byte {
 	if err := json.Unmarshal(tb, &t); err != nil {
 		panic(err)
 	}
-	spec := getSpec(t.Prop, t.Tier)
+	base := getSpec(t.Prop, t.Tier)
+	sc := *base
+	sc.TimersOff = t.Variant == 1
+	spec := &sc
 	h.Boot(spec.ShardNum, 1)
 	rt.CurMode = rt.Controlled
 	res := result{Replies: map[string]int{}}
@@ -653,8 +693,9 @@ func worker(tb []byte, progress func()) []byte {
 			continue
 		}
 		res.RootHash = append(res.RootHash, baseHash)
-		if !workerSeen[baseHash] && !spec.NoObservers {
-			workerSeen[baseHash] = true
+		seenKey := baseHash*31 + uint64(t.Variant)
+		if !workerSeen[seenKey] && !spec.NoObservers {
+			workerSeen[seenKey] = true
 			vs, mut := x.observe(prog, seed.Name)
 			res.Viol = append(res.Viol, vs...)
 			res.Observed++
@@ -663,12 +704,16 @@ func worker(tb []byte, progress func()) []byte {
 				continue
 			}
 		}
+		alphabet := spec.Alphabet
 		if t.Root {
-			x.close()
-			continue
+			if len(spec.ProbeOps) == 0 {
+				x.close()
+				continue
+			}
+			alphabet = spec.ProbeOps
 		}
 		baseKS := x.ks
-		for oi, op := range spec.Alphabet {
+		for oi, op := range alphabet {
 			if t.OnlyOp >= 0 && oi != t.OnlyOp {
 				continue
 			}
@@ -688,7 +733,9 @@ func worker(tb []byte, progress func()) []byte {
 			}
 			if so.hash != baseHash {
 				res.Mutating++
-				res.Succ = append(res.Succ, succ{Parent: pi, Op: oi, Hash: so.hash})
+				if !t.Root {
+					res.Succ = append(res.Succ, succ{Parent: pi, Op: oi, Hash: so.hash})
+				}
 				if !rebuild() {
 					break
 				}
@@ -721,14 +768,9 @@ func runSpec(prop string) int {
 	p := &pool.Pool{Handler: "seqmc", N: nWorkers(), Timeout: 25 * time.Second, MemMB: 6144}
 	deadline := time.Now().Add(spec.Budget)
 
-	seen := map[uint64]bool{}
 	type st struct {
 		seed int
 		path []int
-	}
-	var frontier []st
-	for si := range spec.Seeds {
-		frontier = append(frontier, st{seed: si})
 	}
 	states, transitions, mutating, poisoned, observed := 0, 0, 0, 0, 0
 	crashes := 0
@@ -736,147 +778,166 @@ func runSpec(prop string) int {
 	depthDone := -1
 	var samples []string
 	levelStates := []int{}
-
-	addCrash := func(t task, c *pool.Crash) {
-		// a single (state, op) that killed or hung its worker
-		seed := spec.Seeds[t.Seed]
-		prog := append([]Op{}, seed.Prog...)
-		for _, oi := range t.Progs[0] {
-			prog = append(prog, spec.Alphabet[oi])
-		}
-		opName, shape := "rebuild", ""
-		if t.OnlyOp >= 0 {
-			op := spec.Alphabet[t.OnlyOp]
-			prog = append(prog, op)
-			if len(op.A) > 0 {
-				opName = strings.ToLower(string(op.A[0]))
-				shape = shapeOf(op.A, nil, spec.Keys)
-			}
-		}
-		kind := "crash"
-		if c.Kind == "hang" {
-			kind = "hang"
-		} else if pool.IsOOM(c) {
-			kind = "oom"
-		}
-		x := &inst{spec: spec}
-		rep.Add(&ev.Violation{Engine: "seqmc", Kind: kind, Cmd: opName, Shape: shape,
-			Detail: fmt.Sprintf("%s: worker %s: %s", progString(prog), c.Kind, firstLine(c.Detail)),
-			Replay: x.mkReplay(prog, seed.Name, "a reply", c.Kind+": "+c.Detail, "")})
-		crashes++
+	variants := spec.Variants
+	if len(variants) == 0 {
+		variants = []string{"default"}
 	}
+	for variant := range variants {
+		seen := map[uint64]bool{}
+		var frontier []st
+		for si := range spec.Seeds {
+			frontier = append(frontier, st{seed: si})
+		}
 
-	for depth := 0; depth <= spec.Depth; depth++ {
-		if len(frontier) == 0 {
+		addCrash := func(t task, c *pool.Crash) {
+			// a single (state, op) that killed or hung its worker
+			seed := spec.Seeds[t.Seed]
+			prog := append([]Op{}, seed.Prog...)
+			for _, oi := range t.Progs[0] {
+				prog = append(prog, spec.Alphabet[oi])
+			}
+			opName, shape := "rebuild", ""
+			if t.OnlyOp >= 0 {
+				alpha := spec.Alphabet
+				if t.Root {
+					alpha = spec.ProbeOps
+				}
+				op := alpha[t.OnlyOp]
+				prog = append(prog, op)
+				if len(op.A) > 0 {
+					opName = strings.ToLower(string(op.A[0]))
+					shape = shapeOf(op.A, nil, spec.Keys)
+				}
+			}
+			kind := "crash"
+			if c.Kind == "hang" {
+				kind = "hang"
+			} else if pool.IsOOM(c) {
+				kind = "oom"
+			}
+			x := &inst{spec: spec}
+			rep.Add(&ev.Violation{Engine: "seqmc", Kind: kind, Cmd: opName, Shape: shape,
+				Detail: fmt.Sprintf("%s: worker %s: %s", progString(prog), c.Kind, firstLine(c.Detail)),
+				Replay: x.mkReplay(prog, seed.Name, "a reply", c.Kind+": "+c.Detail, "")})
+			crashes++
+		}
+
+		for depth := 0; depth <= spec.Depth; depth++ {
+			if len(frontier) == 0 {
+				depthDone = depth
+				break
+			}
+			expand := depth < spec.Depth
+			// group by seed, batch
+			var tasks [][]byte
+			bySeed := map[int][][]int{}
+			for _, s := range frontier {
+				bySeed[s.seed] = append(bySeed[s.seed], s.path)
+			}
+			seeds := make([]int, 0, len(bySeed))
+			for s := range bySeed {
+				seeds = append(seeds, s)
+			}
+			sort.Ints(seeds)
+			batch := 8
+			if depth == 0 {
+				batch = 1
+			}
+			for _, s := range seeds {
+				ps := bySeed[s]
+				for i := 0; i < len(ps); i += batch {
+					j := i + batch
+					if j > len(ps) {
+						j = len(ps)
+					}
+					tb, _ := json.Marshal(task{Prop: prop, Tier: tier, Variant: variant, Seed: s, Progs: ps[i:j], OnlyOp: -1, Root: !expand})
+					tasks = append(tasks, tb)
+				}
+			}
+			var next []st
+			timedOut := false
+			p.Map(tasks, func(tb []byte, out []byte, crash *pool.Crash) [][]byte {
+				var t task
+				json.Unmarshal(tb, &t)
+				if time.Now().After(deadline) {
+					timedOut = true
+					return nil
+				}
+				if crash != nil {
+					// split: batch -> single states -> single ops
+					var more [][]byte
+					if len(t.Progs) > 1 {
+						for _, pr := range t.Progs {
+							b, _ := json.Marshal(task{Prop: prop, Tier: tier, Variant: variant, Seed: t.Seed, Progs: [][]int{pr}, OnlyOp: -1, Root: t.Root})
+							more = append(more, b)
+						}
+						return more
+					}
+					if t.OnlyOp < 0 && (!t.Root || len(spec.ProbeOps) > 0) {
+						alpha := spec.Alphabet
+						if t.Root {
+							alpha = spec.ProbeOps
+						}
+						for oi := range alpha {
+							b, _ := json.Marshal(task{Prop: prop, Tier: tier, Variant: variant, Seed: t.Seed, Progs: t.Progs, OnlyOp: oi, Root: t.Root})
+							more = append(more, b)
+						}
+						return more
+					}
+					addCrash(t, crash)
+					return nil
+				}
+				var r result
+				if err := json.Unmarshal(out, &r); err != nil {
+					panic(err)
+				}
+				transitions += r.Transitions
+				mutating += r.Mutating
+				poisoned += r.Poisoned
+				observed += r.Observed
+				for _, v := range r.Viol {
+					rep.Add(v)
+				}
+				if t.OnlyOp < 0 {
+					for i, hsh := range r.RootHash {
+						if hsh != 0 && depth == 0 {
+							if !seen[hsh] {
+								seen[hsh] = true
+								states++
+							}
+						}
+						_ = i
+					}
+				}
+				for _, s := range r.Succ {
+					if !seen[s.Hash] {
+						seen[s.Hash] = true
+						states++
+						path := append(append([]int{}, t.Progs[s.Parent]...), s.Op)
+						next = append(next, st{seed: t.Seed, path: path})
+						if len(samples) < 5 && len(path) >= 2 {
+							sd := spec.Seeds[t.Seed]
+							prog := append([]Op{}, sd.Prog...)
+							for _, oi := range path {
+								prog = append(prog, spec.Alphabet[oi])
+							}
+							samples = append(samples, progString(prog))
+						}
+					}
+				}
+				return nil
+			})
+			levelStates = append(levelStates, len(frontier))
+			if timedOut {
+				exhaustive = false
+				fmt.Fprintf(os.Stderr, "seqmc: internal deadline reached at depth %d\n", depth)
+				break
+			}
 			depthDone = depth
-			break
+			fmt.Fprintf(os.Stderr, "seqmc %s: depth %d: frontier %d -> %d new states, %d transitions so far, %d signatures\n", prop, depth, len(frontier), len(next), transitions, rep.Count())
+			frontier = next
 		}
-		expand := depth < spec.Depth
-		// group by seed, batch
-		var tasks [][]byte
-		bySeed := map[int][][]int{}
-		for _, s := range frontier {
-			bySeed[s.seed] = append(bySeed[s.seed], s.path)
-		}
-		seeds := make([]int, 0, len(bySeed))
-		for s := range bySeed {
-			seeds = append(seeds, s)
-		}
-		sort.Ints(seeds)
-		batch := 8
-		if depth == 0 {
-			batch = 1
-		}
-		for _, s := range seeds {
-			ps := bySeed[s]
-			for i := 0; i < len(ps); i += batch {
-				j := i + batch
-				if j > len(ps) {
-					j = len(ps)
-				}
-				tb, _ := json.Marshal(task{Prop: prop, Tier: tier, Seed: s, Progs: ps[i:j], OnlyOp: -1, Root: !expand})
-				tasks = append(tasks, tb)
-			}
-		}
-		var next []st
-		timedOut := false
-		p.Map(tasks, func(tb []byte, out []byte, crash *pool.Crash) [][]byte {
-			var t task
-			json.Unmarshal(tb, &t)
-			if time.Now().After(deadline) {
-				timedOut = true
-				return nil
-			}
-			if crash != nil {
-				// split: batch -> single states -> single ops
-				var more [][]byte
-				if len(t.Progs) > 1 {
-					for _, pr := range t.Progs {
-						b, _ := json.Marshal(task{Prop: prop, Tier: tier, Seed: t.Seed, Progs: [][]int{pr}, OnlyOp: -1, Root: t.Root})
-						more = append(more, b)
-					}
-					return more
-				}
-				if t.OnlyOp < 0 && !t.Root {
-					for oi := range spec.Alphabet {
-						b, _ := json.Marshal(task{Prop: prop, Tier: tier, Seed: t.Seed, Progs: t.Progs, OnlyOp: oi})
-						more = append(more, b)
-					}
-					return more
-				}
-				addCrash(t, crash)
-				return nil
-			}
-			var r result
-			if err := json.Unmarshal(out, &r); err != nil {
-				panic(err)
-			}
-			transitions += r.Transitions
-			mutating += r.Mutating
-			poisoned += r.Poisoned
-			observed += r.Observed
-			for _, v := range r.Viol {
-				rep.Add(v)
-			}
-			if t.OnlyOp < 0 {
-				for i, hsh := range r.RootHash {
-					if hsh != 0 && depth == 0 {
-						if !seen[hsh] {
-							seen[hsh] = true
-							states++
-						}
-					}
-					_ = i
-				}
-			}
-			for _, s := range r.Succ {
-				if !seen[s.Hash] {
-					seen[s.Hash] = true
-					states++
-					path := append(append([]int{}, t.Progs[s.Parent]...), s.Op)
-					next = append(next, st{seed: t.Seed, path: path})
-					if len(samples) < 5 && len(path) >= 2 {
-						sd := spec.Seeds[t.Seed]
-						prog := append([]Op{}, sd.Prog...)
-						for _, oi := range path {
-							prog = append(prog, spec.Alphabet[oi])
-						}
-						samples = append(samples, progString(prog))
-					}
-				}
-			}
-			return nil
-		})
-		levelStates = append(levelStates, len(frontier))
-		if timedOut {
-			exhaustive = false
-			fmt.Fprintf(os.Stderr, "seqmc: internal deadline reached at depth %d\n", depth)
-			break
-		}
-		depthDone = depth
-		fmt.Fprintf(os.Stderr, "seqmc %s: depth %d: frontier %d -> %d new states, %d transitions so far, %d signatures\n", prop, depth, len(frontier), len(next), transitions, rep.Count())
-		frontier = next
-	}
+	} // variants
 	if len(samples) == 0 {
 		samples = append(samples, "(no program of length >= 2 reached a new state)")
 	}
@@ -897,6 +958,7 @@ func runSpec(prop string) int {
 		"frontier_per_depth":            levelStates,
 		"violation_signatures":          rep.Count(),
 		"rule":                          spec.Rule,
+		"variants":                      variants,
 	}
 	return rep.Finish(cov, []string{
 		"reference model (verif/model) encodes the Redis command reference; rules in DESIGN.md Appendix B",
